@@ -1,7 +1,7 @@
 (** RFC 3526 group 16: the prime in crypto.py (regenerated into Gen/ModpGroups.v) equals the RFC's closed form. *)
 From Coq Require Import ZArith Reals.
 From Interval Require Import Tactic.
-From Keys Require Import Gen.ModpGroups Rfc3526 PrimeLemmas.
+From Keys Require Import Gen.ModpGroups ModpTable Rfc3526Formula PrimeLemmas.
 Open Scope Z_scope.
 
 Lemma prime_16 : modp_prime 16 = rfc3526_prime 4096 240904.
